@@ -330,3 +330,47 @@ Qed.
 
 Theorem gen_deser_agrees : forall bs tr, gen_deser bs tr = deser dflags_fixed bs tr.
 Proof. intros. apply gen_deser_fuel_agrees. Qed.
+
+(* ------------------------------------------------------------------------------------------ *)
+(** * The serialiser built from the generated methods *)
+
+Definition gen_emit_tbl (tbl:symtab) (tr:tracker) (c:call) : option (symtab * list N) :=
+  match gen_emit tbl tr c with Some (d, b) => Some (dict_names d, b) | None => None end.
+
+Theorem gen_emit_tbl_agrees : forall tbl tr c, gen_emit_tbl tbl tr c = emit tbl tr c.
+Proof.
+  intros. unfold gen_emit_tbl. rewrite gen_emit_agrees. destruct (emit tbl tr c) as [[t b]|]; [|reflexivity].
+  cbn. rewrite dict_names_of. reflexivity.
+Qed.
+
+(** one call of the SerializingInterpreter: super() (the tracker) first, then the generated writes *)
+Definition gen_ser_step (tbl:symtab) (tr:tracker) (c:call) : option (symtab * tracker * list N) :=
+  match stateful_step tr c with
+  | Some tr' => match gen_emit_tbl tbl tr c with
+                | Some (tbl', bs) => Some (tbl', tr', bs)
+                | None => None end
+  | None => None
+  end.
+
+Fixpoint gen_ser_run (tbl:symtab) (tr:tracker) (cs:list call) : option (symtab * tracker * list N) :=
+  match cs with
+  | [] => Some (tbl, tr, [])
+  | c :: cs' =>
+      if is_switch c then None else
+      match gen_ser_step tbl tr c with
+      | Some (tbl', tr', bs) =>
+          match gen_ser_run tbl' tr' cs' with
+          | Some (tbl'', tr'', bs') => Some (tbl'', tr'', bs ++ bs')
+          | None => None end
+      | None => None end
+  end.
+
+Lemma gen_ser_step_agrees : forall tbl tr c, gen_ser_step tbl tr c = ser_step tbl tr c.
+Proof. intros. unfold gen_ser_step, ser_step. rewrite gen_emit_tbl_agrees. reflexivity. Qed.
+
+Theorem gen_ser_run_agrees : forall cs tbl tr, gen_ser_run tbl tr cs = ser_run tbl tr cs.
+Proof.
+  induction cs as [|c cs IH]; intros tbl tr; [reflexivity|]. cbn [gen_ser_run ser_run].
+  rewrite gen_ser_step_agrees. destruct (is_switch c); [reflexivity|].
+  destruct (ser_step tbl tr c) as [[[t1 tr1] b1]|]; [|reflexivity]. rewrite IH. reflexivity.
+Qed.
